@@ -324,12 +324,14 @@ def classify(prop, fails, known):
     return viol, kf
 
 
-def run_check(prop, tier, seed, keep=False):
+def run_check(prop, tier, seed, keep=False, only=None):
+    """only = (stage tag, session id): replay of one recorded session"""
     t0 = time.time()
     cfg = CHECKS[prop]
     import glob
-    for f in glob.glob(os.path.join(L.REPLAYS, prop + "-*.json")):
-        os.remove(f)
+    if only is None:
+        for f in glob.glob(os.path.join(L.REPLAYS, prop + "-*.json")):
+            os.remove(f)
     L.ensure_universe()
     sc = L.Scratch(keep)
     try:
@@ -358,7 +360,16 @@ def run_check(prop, tier, seed, keep=False):
             work.append((plan, st.module, "%s-%d" % (st.driver, i), st, props_judged))
         while work:
             plan, module, tag, st, props_judged = work.pop(0)
+            if only is not None and tag == only[0]:
+                plan = dict(plan)
+                plan["extra"] = dict(plan.get("extra") or {}, only=only[1])
             tr = L.run_driver(sc, jdv, plan, tag)
+            if only is not None and tag != only[0]:
+                # not the stage being replayed: only its follow-up stages are needed
+                if st is not None and st.followup:
+                    for (p2, m2, t2) in st.followup(sc, jdv, st, tr, tag, seed):
+                        work.append((p2, m2, t2, None, props_judged))
+                continue
             v = L.judge(sc, module, props_judged, tr, tag, constants=known_constants())
             traces[tag] = tr
             if st is not None and st.followup:
@@ -410,6 +421,9 @@ def run_check(prop, tier, seed, keep=False):
             if p == prop:
                 note_counts[what] = note_counts.get(what, 0) + 1
         wall = time.time() - t0
+        if only is not None:
+            log("replay of session %d (%s): %s" % (only[1], only[0], "still fails" if nviol else "no failing clause"))
+            return 1 if nviol else 0
         cov = dict(states=design["states"] + tstates, transitions=design["transitions"] + ttrans,
                    traces_validated_against_impl=sessions, samples=samples[:4],
                    evaluations=sessions, distinct_nontrivial=stats.get("nontrivial", sessions), trace_records=records, judge_stats=stats,
@@ -433,7 +447,10 @@ def known_constants():
 
 
 def replay(prop, path, keep):
-    raise Infra("replay not implemented yet")
+    """re-runs the recorded failing session: same tier, seed and stage, the driver restricted to that session"""
+    r = json.load(open(path))
+    sess = r["records"][0]["sess"]
+    return run_check(prop, r.get("tier", "quick"), int(r.get("seed", 1)), keep, only=(r["stage"], sess))
 
 
 def selftest():
